@@ -15,18 +15,19 @@ Y == V("y")
 Conds == {X, Not(X), Cmp("==", X, Y), Cmp("==", X, I(1)), Cmp("!=", X, S("a")), And(X, Y), Or(X, Y),
           Cmp("<", X, I(1)), Cmp("==", X, EmptyE), Cmp("==", X, BlankE), Contains(X, S("a")),
           Or(X, And(Y, FalseE)), And(Or(X, Y), FalseE)}
-Leaves == {Text("a"), Text(" "), Out(P(X)), Out(P(Y)), Assign("x", P(I(1))), Assign("y", P(X)),
+Leaves == {NText("a"), NText(" "), NOut(P(X)), NOut(P(Y)), Assign("x", P(I(1))), Assign("y", P(X)),
            Assign("x", P(S("a")))}
-Bodies == {<<>>} \cup {<<l>> : l \in Leaves} \cup {<<Text(" "), Assign("x", P(I(1)))>>, <<Out(P(X)), Text("b")>>}
-SmallBodies == {<<>>, <<Text("t")>>, <<Text(" ")>>, <<Assign("y", P(I(2)))>>, <<Out(P(Y))>>}
+Bodies == {<<>>} \cup {<<l>> : l \in Leaves} \cup {<<NText(" "), Assign("x", P(I(1)))>>, <<NOut(P(X)), NText("b")>>}
+SmallBodies == {<<>>, <<NText("t")>>, <<NText(" ")>>, <<Assign("y", P(I(2)))>>, <<NOut(P(Y))>>}
 
 Ifs == {If(c, b, <<>>, NoElse) : c \in Conds, b \in Bodies}
        \cup {If(c, b, <<>>, Else(e)) : c \in {X, Cmp("==", X, Y)}, b \in SmallBodies, e \in SmallBodies}
-       \cup {If(X, b, <<Elif(Y, e)>>, Else(<<Text("z")>>)) : b \in SmallBodies, e \in SmallBodies}
-       \cup {Unless(c, b, <<>>, Else(<<Text("u")>>)) : c \in {X, Cmp("==", X, I(1))}, b \in SmallBodies}
-Cases == {Case(X, <<When(<<I(1)>>, b)>>, els) : b \in SmallBodies, els \in {NoElse, Else(<<Text("e")>>)}}
-         \cup {Case(X, <<When(<<I(1), S("a")>>, b), When(<<S("a")>>, <<Text("2")>>)>>, Else(<<Text("e")>>)) : b \in SmallBodies}
-         \cup {Case(X, <<When(<<Y>>, <<Text("y")>>), When(<<NilE>>, <<Text("n")>>)>>, Else(e)) : e \in SmallBodies}
+       \cup {If(X, b, <<Elif(Y, e)>>, Else(<<NText("z")>>)) : b \in SmallBodies, e \in SmallBodies}
+       \cup {Unless(c, b, <<>>, Else(<<NText("u")>>)) : c \in {X, Cmp("==", X, I(1))}, b \in SmallBodies}
+Cases == {Case(X, <<When(<<I(1)>>, b)>>, els) : b \in SmallBodies, els \in {NoElse, Else(<<NText("e")>>)}}
+         \cup {Case(X, <<When(<<I(1), S("a")>>, b), When(<<S("a")>>, <<NText("2")>>)>>, Else(<<NText("e")>>)) : b \in SmallBodies}
+         \cup {Case(X, <<When(<<Y>>, <<NText("y")>>), When(<<NilE>>, <<NText("n")>>)>>, Else(e)) : e \in SmallBodies}
 
 MCPool == Leaves \cup Ifs \cup Cases
+MCPoolAt(i) == MCPool
 =============================================================================
